@@ -130,7 +130,7 @@ inductive HexBody : List UInt8 → List UInt8 → Prop where
 
 /-- values whose spelling ends in a regular character (a separator or delimiter must follow) -/
 def needsBnd {R : Type} : Prim R → Bool
-  | .null | .int _ | .real _ | .bool _ | .ref _ _ | .name _ => true
+  | .null | .int _ | .real _ | .bool _ | .ref _ _ | .name _ | .stream _ _ => true
   | _ => false
 
 def kwTrue : List UInt8 := [116, 114, 117, 101]
